@@ -1,5 +1,6 @@
 import Mkdb.Proofs.Join
 import Mkdb.Proofs.TableNames
+import Mkdb.Proofs.Meaning4
 /-!
 # C06 — JOIN results equal the relational definition
 
@@ -126,5 +127,118 @@ theorem C06_table_ids_distinct (fetch : Bytes → Option Table) (tr : TableRef) 
   ⟨⟨fromRows_fields_eq_blocks fetch tr rows fields h, fromRows_blocks_disjoint fetch tr rows fields h⟩,
    fun id => qualified_ref_at_most_one_table fetch tr rows fields h id,
    fun hcols => fromRows_tableIds_nodup fetch tr rows fields h hcols⟩
+
+end Mkdb.Exec
+
+/-! ## The executor against the reference meaning, for joins
+
+`Spec.meaning` / `Spec.satisfies` are the pair the differential-testing judge evaluates on the output
+of the real implementation (`Mkdb/Driver/Exec.lean`); see the same section of `Mkdb/Props/C05.lean`. -/
+namespace Mkdb.Exec
+open Mkdb.Sql Mkdb.Exec.JoinP Mkdb.Exec.SelectP Mkdb.Exec.MeaningP
+
+/-- **C06.join_defined_iff**: the converse of `C06_join`, and the two together.  Whenever the
+nested loops succeed on a left-deep chain of joins, the relational definition `Spec.fromRows` is
+defined (no table id used twice, every ON evaluation on every pair a boolean), with the same header
+and - as a multiset - the same rows; hence the executor's FROM clause succeeds exactly when the
+relational definition is defined. -/
+theorem C06_join_defined_iff (fetch : Bytes → Option Table) (tr : TableRef) :
+    (∀ rowsM fields, nestedLoopJoin fetch tr = .ok (rowsM, fields) →
+      ∃ rowsS, Spec.fromRows fetch tr = some (rowsS, fields) ∧ rowsM.Perm rowsS) ∧
+    (∀ fields, (∃ rowsM, nestedLoopJoin fetch tr = .ok (rowsM, fields)) ↔
+      (∃ rowsS, Spec.fromRows fetch tr = some (rowsS, fields))) :=
+  ⟨fun rowsM fields h => fromRows_of_nestedLoopJoin fetch tr rowsM fields h,
+   fun fields => nestedLoopJoin_ok_iff_fromRows fetch tr fields⟩
+
+/-- **C06.result_is_the_reference_meaning**: whatever a SELECT over a chain of INNER / LEFT / RIGHT
+joins (any left-deep `FROM` clause; no aggregates, no GROUP BY) answers is what the query means.  If
+`evaluateSelect` answers `(rows, hdr)` then the query has a reference meaning `want` (the relational
+join - matching pairs plus the padded unmatched rows of the outer side - filtered by WHERE,
+projected by the select list), `hdr` is the header the judge computes, the ORDER BY keys resolve
+against it to `keys` and are comparable on `want`, the answer is `cut (sortRows keys got)` for a
+permutation `got` of `want` (the order in which the nested loops deliver the rows), and the judge's
+test `Spec.satisfies q hdr want rows` accepts it: equal as multisets without ORDER BY (right length
+and sub-multiset when OFFSET / LIMIT cut), and with ORDER BY sorted, with the key sequence of the
+sorted meaning at those positions, and a sub-multiset of the meaning.
+Hypothesis `hwhere` as in `C05_result_is_the_reference_meaning` (a WHERE clause that is a bare
+integer or string literal is answered although ill-typed). -/
+theorem C06_result_is_the_reference_meaning {fetch : Bytes → Option Table} {q : Select}
+    {l : TableRef} {jt : JoinType} {r : TableName} {on : Cond} {rows : List Row} {hdr : List Field}
+    (hfrom : q.from_ = some (.join l jt r on)) (hagg : hasAggr q.list = false)
+    (hgb : q.groupBy = []) (hwhere : whereIsBoolean q = true)
+    (h : evaluateSelect fetch q = .ok (rows, hdr)) :
+    ∃ want got keys, Spec.meaning fetch q = some want ∧ hdr = judgeHeader fetch q ∧
+      Spec.sortKeys q hdr = some keys ∧ got.Perm want ∧
+      (∀ a ∈ want, ∀ b ∈ want, KeyComparable keys a b) ∧
+      rows = cut q.lim (sortRows keys got) ∧
+      Spec.satisfies q hdr want rows = true := by
+  obtain ⟨want, got, keys, hm, hh, hk, hp, hcomp, rfl⟩ := from_any_result hfrom hagg hgb hwhere h
+  exact ⟨want, got, keys, hm, (judgeHeader_of hh).symm, hk, hp, hcomp, rfl,
+    satisfies_perm (comparedExactly_join hfrom) hk hp hcomp⟩
+
+/-- **C06.meaningful_query_is_answered** (the converse): a SELECT over a chain of joins (no
+aggregates, no GROUP BY) that has a reference meaning `want`, whose ORDER BY keys resolve against the
+judge's header and are comparable on `want`, is not refused: the executor answers with that header
+and `cut (sortRows keys got)` for a permutation `got` of `want`, and the judge's test accepts the
+answer.  No hypothesis on WHERE, none on the shape of the stored rows. -/
+theorem C06_meaningful_query_is_answered {fetch : Bytes → Option Table} {q : Select}
+    {l : TableRef} {jt : JoinType} {r : TableName} {on : Cond}
+    {want : List Row} {keys : List (Nat × Bool)}
+    (hfrom : q.from_ = some (.join l jt r on)) (hagg : hasAggr q.list = false)
+    (hgb : q.groupBy = [])
+    (hm : Spec.meaning fetch q = some want)
+    (hk : Spec.sortKeys q (judgeHeader fetch q) = some keys)
+    (hcomp : ∀ a ∈ want, ∀ b ∈ want, KeyComparable keys a b) :
+    ∃ got, got.Perm want ∧
+      evaluateSelect fetch q = .ok (cut q.lim (sortRows keys got), judgeHeader fetch q) ∧
+      Spec.satisfies q (judgeHeader fetch q) want (cut q.lim (sortRows keys got)) = true := by
+  obtain ⟨got, hp, he⟩ := from_any_answered hfrom hagg hgb hm hk hcomp
+  exact ⟨got, hp, he, satisfies_perm (comparedExactly_join hfrom) hk hp hcomp⟩
+
+/-- **C06.sorted_keys_of_permutations_agree**: why the judge may compare the key sequence of the
+answer with that of the *stably sorted meaning* although the executor sorts the rows in another
+order: two permutations of one list of rows whose key columns are comparable, sorted by the same
+keys, show the same sequence of key values - ties may be ordered differently, nothing else. -/
+theorem C06_sorted_keys_of_permutations_agree {keys : List (Nat × Bool)} {got want : List Row}
+    (hp : got.Perm want) (hc : ∀ a ∈ want, ∀ b ∈ want, KeyComparable keys a b) :
+    (sortRows keys got).map (Spec.keyProj keys) = (sortRows keys want).map (Spec.keyProj keys) :=
+  sorted_keys_eq_of_perm hp hc
+
+/-- `SELECT t.x, u.y FROM t RIGHT JOIN u ON t.id = u.id LEFT JOIN t w ON u.id = w.id
+WHERE u.id >= 1 ORDER BY u.y DESC LIMIT 5 OFFSET 1` on the tables of `Mkdb/Proofs/Join.lean`
+(duplicate join keys on both sides, an unmatched right row) -/
+def exJoinQuery : Select :=
+  { list := [⟨.expr (.val (.col ⟨Example.bt, Example.bx⟩)), []⟩,
+             ⟨.expr (.val (.col ⟨Example.bu, Example.by_⟩)), []⟩]
+    from_ := some Example.trX
+    where_ := some (.pred ⟨.col ⟨Example.bu, Example.bid⟩, Generated.t_GTE, .lit (.int 1)⟩)
+    orderBy := [⟨⟨Example.bu, Example.by_⟩, true⟩]
+    lim := { limitActive := true, offsetActive := true, limit := 5, offset := 1 } }
+
+def exJoinWant : List Row :=
+  [[.str [97], .str [112]], [.str [97], .str [112]], [.str [97], .str [113]], [.str [97], .str [113]],
+   [.str [98], .str [112]], [.str [98], .str [112]], [.str [98], .str [113]], [.str [98], .str [113]],
+   [.null, .str [122]]]
+
+-- non-vacuity: the query meets every hypothesis of the two theorems
+example : exJoinQuery.from_ = some (.join
+      (.join (.table ⟨Example.bt, none⟩) .right ⟨Example.bu, none⟩ Example.onC) .left
+      ⟨Example.bt, some Example.bw⟩
+      (.pred ⟨.col ⟨Example.bu, Example.bid⟩, Generated.t_EQ, .col ⟨Example.bw, Example.bid⟩⟩)) ∧
+    hasAggr exJoinQuery.list = false ∧ exJoinQuery.groupBy = [] ∧
+    whereIsBoolean exJoinQuery = true := by decide
+example : Spec.meaning Example.fetchX exJoinQuery = some exJoinWant := by decide
+example : judgeHeader Example.fetchX exJoinQuery =
+    [⟨Example.bt, Example.bx⟩, ⟨Example.bu, Example.by_⟩] := by decide
+example : Spec.sortKeys exJoinQuery (judgeHeader Example.fetchX exJoinQuery) = some [(1, true)] := by
+  decide
+example : ∀ a ∈ exJoinWant, ∀ b ∈ exJoinWant, KeyComparable [(1, true)] a b := by decide
+-- the executor's answer: the row with `z` skipped, then the four rows with `q`, then one with `p`
+example : evaluateSelect Example.fetchX exJoinQuery = .ok (
+    [[.str [97], .str [113]], [.str [97], .str [113]], [.str [98], .str [113]], [.str [98], .str [113]],
+     [.str [97], .str [112]]], [⟨Example.bt, Example.bx⟩, ⟨Example.bu, Example.by_⟩]) := by decide
+example : Spec.satisfies exJoinQuery [⟨Example.bt, Example.bx⟩, ⟨Example.bu, Example.by_⟩] exJoinWant
+    [[.str [97], .str [113]], [.str [97], .str [113]], [.str [98], .str [113]], [.str [98], .str [113]],
+     [.str [97], .str [112]]] = true := by decide
 
 end Mkdb.Exec
